@@ -109,6 +109,18 @@ fn simpler_stage(s: StageSpec) -> Vec<StageSpec> {
             out.push(DynSkip(l));
             out.extend(simpler_lim(l).into_iter().map(ObsDynSkip));
         }
+        ObsDynHeadInit(n, l) => {
+            out.push(DynHeadInit(n, l));
+            out.extend(simpler_usize(n).into_iter().map(|m| ObsDynHeadInit(m, l)));
+        }
+        ObsDynTailInit(n, l) => {
+            out.push(DynTailInit(n, l));
+            out.extend(simpler_usize(n).into_iter().map(|m| ObsDynTailInit(m, l)));
+        }
+        ObsDynSkipInit(n, l) => {
+            out.push(DynSkipInit(n, l));
+            out.extend(simpler_usize(n).into_iter().map(|m| ObsDynSkipInit(m, l)));
+        }
     }
     out
 }
